@@ -108,34 +108,7 @@ def as_numpy_items(model, t, chunk):
     return None
 
 
-def reusing(chunk, after):
-    """A producer that keeps one object per kind of item, refills it in place for each item and hands the same object
-    over again (one acquisition buffer, one record instance updated per sample) — and scribbles over it once the
-    consumer has come back for the next item. What the consumer was handed is the content at hand-over."""
-    import copy
-    import enum
-    import numpy as np
-    buf = None
-    for x in chunk:
-        same = buf is not None and type(buf) is type(x)
-        if same and isinstance(x, np.ndarray) and x.ndim >= 1 and x.shape == buf.shape and x.dtype == buf.dtype and x.dtype != object:
-            buf[...] = x
-        elif same and isinstance(x, list):
-            buf[:] = x
-        elif same and isinstance(x, dict):
-            buf.clear()
-            buf.update(x)
-        elif same and hasattr(x, "__dict__") and not isinstance(x, (enum.Enum, type)):
-            buf.__dict__.clear()
-            buf.__dict__.update(x.__dict__)
-        elif isinstance(x, (np.ndarray, list, dict)) or (hasattr(x, "__dict__") and not isinstance(x, (enum.Enum, type))):
-            buf = copy.copy(x)
-        else:
-            buf = None
-            yield x
-            continue
-        after[0] += 1
-        yield buf
+reusing = P.reusing
 
 
 REUSED = [0]
